@@ -120,6 +120,27 @@ def v_hier():
     return Hier, {}
 
 
+def v_aliased_signal():
+    class Aliased(Entity):
+        a = Port.input(Bit)
+        o = Port.output(Bit)
+
+        def architecture(self):
+            # one unnamed signal bound to several names that the context captures: the emitted name must not
+            # depend on the iteration order of a set of strings
+            first_name = Signal[Bit]()
+            other_alias = first_name
+            third = first_name
+            zeta = first_name
+
+            @std.concurrent
+            def logic():
+                first_name.next = self.a
+                self.o <<= other_alias & third & zeta
+
+    return Aliased, {}
+
+
 _shared = {}
 
 
@@ -280,7 +301,7 @@ def r_drivers():
     return BadDrv, {}
 
 
-VALID = ["v_comb", "v_coroutine", "v_prefix", "v_named", "v_reserved", "v_hier", "v_open_entity", "v_commented", "v_base_port", "v_derived_inst"]
+VALID = ["v_comb", "v_coroutine", "v_prefix", "v_named", "v_reserved", "v_hier", "v_open_entity", "v_commented", "v_base_port", "v_derived_inst", "v_aliased_signal"]
 REJECTED = ["r_statemachine", "r_context", "r_prefix", "r_architecture", "r_drivers"]
 _cache = {}
 
